@@ -169,6 +169,8 @@ type c05Ack struct {
 	Rev     string
 	Seq     uint64
 	Deleted bool
+	CallEv  int64
+	RetEv   int64
 }
 
 type c05In struct {
@@ -292,8 +294,9 @@ func c05Run(env *verifsim.Env, raw json.RawMessage) *verifsim.Violation {
 				if doc != nil {
 					ack.Seq = doc.Sequence
 				}
-				res.acks = append(res.acks, ack)
 				rec.End(c05Out{OK: true, Rev: rev, Deleted: ack.Deleted}, nil)
+				ack.CallEv, ack.RetEv = rec.Call, rec.Return
+				res.acks = append(res.acks, ack)
 			}
 		})
 	}
@@ -354,20 +357,19 @@ func c05Run(env *verifsim.Env, raw json.RawMessage) *verifsim.Violation {
 			for _, a := range docAcks {
 				if _, ok := doc.History[a.Rev]; !ok {
 					vio = verifsim.Vf("C05", "ack-lost", "acknowledged revision %s of %s (writer %s, parent %q) is not in the revision history %v", a.Rev, id, a.Writer, a.Parent, sortedKeys(doc.History))
-					// identify the one history shape that is a recorded finding: the lost write is a
-					// tombstone revision on top of a tombstone, and another acknowledged write
-					// resurrected the same tombstone (the resurrection is an un-CAS-guarded insert)
-					parentDeleted, resurrected := false, false
+					// identify the recorded finding: the lost write completed while another
+					// acknowledged write that resurrects a tombstone (written as an insert without
+					// compare-and-swap) was in flight
+					deletedRevs := map[string]bool{}
 					for _, b := range docAcks {
-						if b.Rev == a.Parent && b.Deleted {
-							parentDeleted = true
-						}
-						if b.Rev != a.Rev && b.Parent == a.Parent && !b.Deleted {
-							resurrected = true
+						if b.Deleted {
+							deletedRevs[b.Rev] = true
 						}
 					}
-					if a.Deleted && parentDeleted && resurrected {
-						vio.Key = "tombstone-update-overwritten-by-resurrection"
+					for _, b := range docAcks {
+						if b.Rev != a.Rev && !b.Deleted && deletedRevs[b.Parent] && b.CallEv < a.RetEv && a.CallEv < b.RetEv {
+							vio.Key = "overwritten-by-concurrent-resurrection"
+						}
 					}
 					return
 				}
